@@ -1287,7 +1287,7 @@ class Image(Vectorizable, Landmarkable, Viewable, LandmarkableViewable):
         new_shape = (max_bounded - min_bounded).astype(int)
         return self.warp_to_shape(
             new_shape,
-            Translation(min_bounded),
+            Translation(min_bounded, skip_checks=True),
             order=0,
             warp_landmarks=True,
             return_transform=return_transform,
